@@ -979,6 +979,11 @@ func (s *runtimeState) loadAuth(compiled config.Compiled) error {
 	}
 
 	s.mu.Lock()
+	// Replay protection must survive a reload: routes that keep HMAC auth keep
+	// the nonces they have already honoured.
+	for route, auth := range hmacByRoute {
+		auth.InheritReplayState(s.hmacByRoute[route])
+	}
 	s.pullAuthorize = pullapi.BearerTokenAuthorizer(tokens)
 	s.workerAuthorize = workerapi.BearerTokenAuthorizer(tokens)
 	s.adminAuthorize = admin.BearerTokenAuthorizer(adminTokens)
